@@ -25,7 +25,7 @@ type EK struct {
 	C  string `json:"c"`
 }
 type EStep struct {
-	T  string `json:"t"` // val | sup
+	T  string `json:"t"` // val | sup | pure | func
 	P  *EProg `json:"p"`
 	Id int    `json:"id"`
 }
@@ -411,8 +411,12 @@ func randEff(r *rand.Rand, monad string, depth int, id *int) *EProg {
 				n = 2
 			}
 			for i := 0; i < n; i++ {
-				t := []string{"val", "sup"}[r.Intn(2)]
-				p.Steps = append(p.Steps, EStep{T: t, P: sub(), Id: next()})
+				t := []string{"val", "sup", "pure", "func"}[r.Intn(4)]
+				st := EStep{T: t, P: sub(), Id: next()}
+				if t == "pure" || t == "func" {
+					st.P = &EProg{K: "unit", V: []int{r.Intn(5)}}
+				}
+				p.Steps = append(p.Steps, st)
 			}
 			if n == 2 && r.Intn(2) == 0 {
 				p.Steps[0].T, p.Steps[1].T = "val", "sup"
